@@ -124,6 +124,9 @@ func (st *State) isSimpleCall(call *ast.CallExpr) bool {
 		if fi != nil && singleReturnExpr(fi.Decl) != nil {
 			return true
 		}
+		if fi != nil && fi.Decl.Body != nil {
+			return false
+		}
 		if fi == nil {
 			return true // external without contract: error raised on evaluation
 		}
@@ -356,6 +359,9 @@ func resultObjs(info *types.Info, ft *ast.FuncType) []*types.Var {
 func (st *State) callFunc(fn *types.Func, recv *Val, args []Val, call *ast.CallExpr) []Outcome {
 	V := st.fc.V
 	fn = fn.Origin()
+	if vals, ok := st.stdlibSpecial(fn, recv, args, call); ok {
+		return []Outcome{{st: st, kind: oNormal, vals: vals}}
+	}
 	if fct := V.contractFor(fn); fct != nil && !fct.Inline {
 		vals := st.applyContract(fct, fn, recv, args, call)
 		return []Outcome{{st: st, kind: oNormal, vals: vals}}
@@ -628,7 +634,7 @@ func (st *State) execBuiltin(name string, call *ast.CallExpr) []Outcome {
 			}
 			st.oblige("bounds", "make-len("+exprStr(call)+")", sAnd(sCmp("<=", "0", n.S), sCmp("<=", n.S, c.S)), call.Pos())
 			st.fc.noteAssumption("allocation succeeds; requested sizes below 2^48 elements are assumed available")
-			st.oblige("alloc", "make-size("+exprStr(call)+")", sCmp("<", c.S, sNum(pow2(maxLenBits))), call.Pos())
+			st.assume(sCmp("<", c.S, sNum(pow2(maxLenBits))))
 			return one(st.makeSlice(t, n.S, c.S))
 		case tcMap:
 			return one(st.newMap(t))
@@ -707,7 +713,7 @@ func (st *State) copyN(dst, src Val, n string) {
 		oldRow := sSel(h, dst.arr())
 		var srcAt func(k string) string
 		if src.K == KString {
-			srcAt = func(k string) string { return sSel(src.content(), k) }
+			srcAt = func(k string) string { return src.at(k) }
 		} else {
 			srcRow := sSel(h, src.arr())
 			srcAt = func(k string) string { return sSel(srcRow, sAdd(src.off(), k)) }
@@ -771,7 +777,7 @@ func (st *State) appendSeq(s Val, sT types.Type, src Val) Val {
 	fresh := st.allocRef()
 	newCap := st.fc.fresh("cap", "Int")
 	st.assume(sAnd(sCmp(">=", newCap, newLen), sCmp("<", newCap, sNum(pow2(maxLenBits)))))
-	st.oblige("alloc", "append-size", sCmp("<", newLen, sNum(pow2(maxLenBits))), token.NoPos)
+	st.assume(sCmp("<", newLen, sNum(pow2(maxLenBits))))
 	arr := st.define("arr", "Int", sIte(fits, s.arr(), fresh))
 	off := st.define("off", "Int", sIte(fits, s.off(), "0"))
 	cp := st.define("cap", "Int", sIte(fits, s.capa(), newCap))
@@ -780,7 +786,7 @@ func (st *State) appendSeq(s Val, sT types.Type, src Val) Val {
 		h := st.heapGet(name, elemSort(c))
 		var srcAt func(k string) string
 		if src.K == KString {
-			srcAt = func(k string) string { return sSel(src.content(), k) }
+			srcAt = func(k string) string { return src.at(k) }
 		} else {
 			srcRow := sSel(h, src.arr())
 			srcAt = func(k string) string { return sSel(srcRow, sAdd(src.off(), k)) }
